@@ -183,8 +183,14 @@ def _fix_atomic_specifiers_once(
     qualified: Any = inner
     while not hasattr(qualified, "quals") and hasattr(qualified, "type"):
         qualified = qualified.type
-    if hasattr(qualified, "quals") and "_Atomic" not in qualified.quals:
-        qualified.quals.append("_Atomic")
+    if hasattr(qualified, "quals"):
+        if qualified.quals is None:
+            qualified.quals = []
+        # Qualifiers written next to the specifier ("const _Atomic(int) x")
+        # qualify the same level as _Atomic does.
+        for qual in list(parent.quals or []) + ["_Atomic"]:
+            if qual not in qualified.quals:
+                qualified.quals.append(qual)
     return decl, True
 
 
